@@ -306,6 +306,50 @@ def model_missing(rep):
     return out
 
 
+def from_tagged(v):
+    """a tagged value of JsonCodec.tla -> the Python value a JSON reader delivers (numbers from their lexical text)"""
+    tag = v[0]
+    if tag == 'z':
+        return None
+    if tag == 't':
+        return True
+    if tag == 'f':
+        return False
+    if tag == 'n':
+        txt_ = ''.join(chr(c) for c in v[1])
+        return int(txt_) if txt_.lstrip('-').isdigit() else float(txt_)
+    if tag == 's':
+        return ''.join(chr(c) for c in v[1])
+    if tag == 'a':
+        return [from_tagged(x) for x in v[1]]
+    if tag == 'o':
+        return {''.join(chr(c) for c in k): from_tagged(x) for k, x in v[1]}
+    raise ValueError('not a JSON value: %r' % (v,))
+
+
+def decode_json_with_spec(rep, json_files):
+    """the reader of JsonCodec.tla on the real bytes of the JSON data files"""
+    wd = tlc.workdir('c03j')
+    tf = tlc.write_ndjson(os.path.join(wd, 'files.ndjson'), [dict(bytes=[ord(ch) for ch in f['data']]) for f in json_files])
+    cfg = tlc.write_cfg(os.path.join(wd, 'tr.cfg'), spec='TSpec', constants={'Alphabet': '{97}', 'MaxStr': 0}, constraints=['Verdict'])
+    res = tlc.run_tlc('JsonTrace', cfg, workers=1, env={'TRACE_FILE': tf}, allow_violation=False, timeout=3000, heap='12g')
+    rep.add_tlc(res, 'JsonTrace: %d real JSON data files decoded by the reader of JsonCodec.tla' % len(json_files))
+    out = {}
+    for v in res.json_payloads('VERDICT'):
+        out[v['t']] = v
+    if len(out) != len(json_files):
+        raise tlc.MachineryError('JsonTrace: %d verdicts for %d files' % (len(out), len(json_files)))
+    return [out[i + 1] for i in range(len(json_files))]
+
+
+def model_json(rep, t):
+    wd = tlc.workdir('c03jm')
+    cfg = tlc.write_cfg(os.path.join(wd, 'jc.cfg'), constants={'Alphabet': '{97, 34, 92, 10, 233, 128512, 31, 127}', 'MaxStr': 2 if t == 'quick' else 3},
+                        invariants=['RoundTrip', 'FileRoundTrip'])
+    res = tlc.run_tlc('JsonCodec', cfg, allow_violation=False, timeout=3000)
+    rep.add_tlc(res, 'JsonCodec: Parse(Render(v)) = v for null/true/false/numbers/strings (quotes, backslashes, control characters, non-BMP) and arrays/objects of them')
+
+
 def decode_with_spec(rep, csv_files):
     """the specification's reader on the real bytes; returns the decoded tables (cell texts)"""
     wd = tlc.workdir('c03t')
@@ -385,6 +429,10 @@ def run():
                 csv_files.append(f)
                 owners.append(x)
     decoded = decode_with_spec(rep, csv_files) if csv_files else []
+    model_json(rep, t)
+    json_files = [f for x in tres if x['ok'] for f in x['files'] if f['fmt'] == 'json']
+    jdec = decode_json_with_spec(rep, json_files) if json_files else []
+    json_by_file = {id(f): d for f, d in zip(json_files, jdec)}
     by_owner = {}
     for f, d, x in zip(csv_files, decoded, owners):
         by_owner.setdefault(id(x), []).append((f, d['table']))
@@ -405,7 +453,15 @@ def run():
                         continue
                     got = [dict(zip(hdr, row)) for row in body]
                 else:
-                    got = json.loads(f['data'])
+                    jd = json_by_file[id(f)]
+                    if not jd['ok']:
+                        problems.append('data file of resource %d is not a JSON array of objects: %r' % (f['ri'], jd['value'][:2]))
+                        continue
+                    got = from_tagged(jd['value'])
+                    if got != json.loads(f['data']):
+                        raise tlc.MachineryError('the reader of JsonCodec.tla and json.loads disagree on a data file')
+                    if not jd['is_spec']:
+                        rep.model_drift('a JSON data file decodes correctly but its bytes are not the rendering JsonCodec.tla specifies', dict(cfg=it['cfg'], seed=it['seed']))
                 if len(got) != len(f['rows']):
                     problems.append('data file of resource %d holds %d rows, dumped %d' % (f['ri'], len(got), len(f['rows'])))
                     continue
